@@ -274,7 +274,7 @@ fn enabled(w: &World, cfg: &Cfg, dropped_by_policy: usize, bystanders_closed: us
     } else if timer {
         v.push(Action::Tick);
     }
-    if !v.is_empty() && bystanders_closed < cfg.bystanders && w.by_sending.get() & (1 << bystanders_closed) != 0 {
+    if !v.is_empty() && bystanders_closed < cfg.bystanders && w.by_sending.get() & (1 << bystanders_closed) != 0 && !w.obs.borrow().client_done {
         v.push(Action::CloseBystander);
     }
     v
@@ -693,8 +693,8 @@ pub fn run(ctx: &Ctx) -> i32 {
         let viol = std::sync::Mutex::new(Vec::new());
         let agg = std::sync::Mutex::new((0u64, 0u64, std::collections::BTreeSet::new()));
         let stats = e1::explore(
-            if cfg.strategy == Strategy::Fifo { bound } else { bound - 1 },
-            max_exec,
+            if cfg.bystanders > 0 { bound.min(4) - 1 } else if cfg.strategy == Strategy::Fifo { bound } else { bound - 1 },
+            if cfg.bystanders > 0 { max_exec.min(3_000_000) } else { max_exec },
             if ctx.tier == Tier::Quick { 16 } else { 64 },
             |prefix| {
                 let r = common::catch(|| run_one(&cfg, prefix));
